@@ -182,7 +182,7 @@ def b_transport(draw, history=False):
     }
     if history and EXCLUDE_STAGNANT_IN_HISTORY:
         del opts["stagnant"]
-    for o in draw(st.lists(st.sampled_from(sorted(opts)), min_size=1, max_size=6, unique=True)):
+    for o in draw(st.lists(st.sampled_from(sorted(opts)), min_size=2, max_size=10, unique=True)):
         L.append(" -%s %s" % (o, draw(st.sampled_from(opts[o]))))
     return L
 
@@ -192,7 +192,7 @@ def b_advection(draw):
          " -time_step %s" % draw(st.sampled_from(["1000", "5"]))]
     opts = {"initial_time": ["500"], "print_cells": ["1"], "punch_cells": ["2"], "punch_frequency": ["2"],
             "print_frequency": ["3"], "warnings": ["false"]}
-    for o in draw(st.lists(st.sampled_from(sorted(opts)), min_size=0, max_size=4, unique=True)):
+    for o in draw(st.lists(st.sampled_from(sorted(opts)), min_size=1, max_size=6, unique=True)):
         L.append(" -%s %s" % (o, draw(st.sampled_from(opts[o]))))
     return L
 
@@ -494,7 +494,7 @@ def post_steps(draw, db, hist_tags):
         if k == 1:
             post.append({"op": "runacc"})
             continue
-        if related and k <= 5:
+        if related and (k <= 5 or not chosen):
             p = draw(st.sampled_from(related))
         else:
             p = draw(st.sampled_from(T.PROBE_NAMES))
